@@ -58,7 +58,7 @@ def required(tier):
            'descent:mass-ignored', 'mass:min', 'mass:max', 'ptf:row-reproduced',
            'load-refused:missing-row', 'load-refused:fourth-mass', 'load-refused:duplicate-row',
            'table:sample', 'table:generated', 'loaded:from-toml-file',
-           'two-tables:same-grid-other-values']
+           'two-tables:same-grid-other-values', 'state-object:reused-across-models']
     return {'classes': cl, 'evaluations': 3000}
 
 
@@ -310,6 +310,29 @@ def run_shard(spec, rec):
                             raise Mismatch('evaluating another table changed the results of the '
                                            'first one', {'phase': ph, 'fl': f, 'mass': m, **case})
                 rec.cls('two-tables:same-grid-other-values')
+                # one state object with a symbolic mass used on two models with other masses
+                t3 = perfgen.gen_table(rng)
+                model3 = PerformanceModel.from_data(perfgen.model_dict(perfgen.table_rows(t3)))
+                for sym in ('min', 'max'):
+                    ph = rng.choice(['climb', 'cruise'])
+                    fa = rng.uniform(t[ph]['fls'][0], t[ph]['fls'][-1])
+                    fb = rng.uniform(t3[ph]['fls'][0], t3[ph]['fls'][-1])
+                    st_obj = AircraftState(altitude=fa / METERS_TO_FL, aircraft_mass=sym)
+                    model.evaluate(st_obj, RULES[ph])
+                    rec.ev()
+                    if st_obj.aircraft_mass != sym:
+                        raise Mismatch('evaluate() modified the caller\'s state object',
+                                       {'mass_before': sym, 'mass_after': st_obj.aircraft_mass,
+                                        **case})
+                    st_obj.altitude = fb / METERS_TO_FL
+                    p3 = model3.evaluate(st_obj, RULES[ph])
+                    want = ev(model3, ph, fb / METERS_TO_FL,
+                              t3['masses'][0] if sym == 'min' else t3['masses'][-1])
+                    if (p3.true_airspeed, p3.rate_of_climb, p3.fuel_flow) != want:
+                        raise Mismatch("symbolic mass does not mean this table's extreme mass when "
+                                       'the state object was used on another model before',
+                                       {'symbol': sym, 'phase': ph, **case})
+                rec.cls('state-object:reused-across-models')
                 if k == 0:
                     rec.sample({'masses': t['masses'], 'climb_fls': t['climb']['fls'],
                                 'cruise_fls': t['cruise']['fls'],
